@@ -7,7 +7,8 @@
     of <=2 bytes over {letter, blank, tab, newline, quote, '=', '<', non-ASCII},
     rendered with the reference quoting function and split again, comes back, the
     command ends at its newline and the next byte is left unread.
-    ArgInject.tla: named / positional / "--" mapping for every list of <=2 arguments
+    ArgInject.tla: named / positional / "--" mapping for every list of <=2 arguments, and
+    for long lists (<= 13 arguments, each positional or named: $10, $11, ... exist)
     over {-,=,a,b}^<=3.
 (R) every enumerated input is fed to the real ReadArguments through a reader that
     knows how many bytes were taken: arguments (as bytes), eof/err status and the
@@ -30,7 +31,8 @@ def run(ctx):
     total = 0
     for mod, cfg, name, every in (('ArgSplit', 'MC_ArgSplit.cfg' if q else 'MC_ArgSplit_thorough.cfg', 'all inputs', 1 if q else 3),
                                   ('ArgSplit', 'MC_ArgSplit_heredoc.cfg', 'heredoc inputs', 1),
-                                  ('ArgInject', 'MC_ArgInject.cfg', 'argument mapping', 1)):
+                                  ('ArgInject', 'MC_ArgInject.cfg', 'argument mapping', 1),
+                                  ('ArgInject', 'MC_ArgInject_long.cfg', 'argument mapping, long lists', 1)):
         r = ctx.tlc_must_pass('text', mod, cfg, workers=8, timeout=3000, name='%s: %s' % (mod, name))
         marker = '\\"k\\":\\"inject\\"' if mod == 'ArgInject' else '\\"k\\":\\"arg\\"'
         shards, tot, taken = vlib.shard_lines(ctx, r['out'], NPROC, marker=marker, every=every, offset=ctx.seed)
